@@ -16,7 +16,8 @@ RULE = ("random histories (<= 25 container ops after a set-up prefix) over 2-4 n
         "overlapping, disjoint, duplicate and case-variant labels; ops: TreeList append/insert/[]=/slice=/extend/+=/+/read/new_tree/"
         "pop/del/remove/[a:b]/clone (incl. positions out of range and trees not in the list: the refusal is compared), Tree/TreeList/"
         "CharacterMatrix migrate/reconstruct/clone (both unify flags), matrix []=/new_sequence, TreeArray.add_tree of a foreign tree, "
-        "DataSet add/new_*/attach/detach/unify/read, both import strategies; thorough adds every depth<=3 history over a fixed small world; "
+        "DataSet add/new_*/attach/detach/unify/read, chains of migrations sharing one caller-supplied taxon_mapping_memo across "
+        "namespaces, both import strategies; thorough adds every depth<=3 history over a fixed small world; "
         "non-trivial = at least two namespaces are involved in a migrating/cloning/reading step")
 MODELLED_NOT_VERIFIED = [
     "C11: the Lean store model (namespaces = ordered member lists + case flag; trees = namespace ref + pre-order taxon refs; matrices = "
@@ -39,7 +40,12 @@ EXPLANATION = ("Theorems (Props/C11.lean + Theory/C11Fresh.lean, about the defin
                "(trees pairwise different objects), migrateTl_same_taxon_iff; every copy route: cloneMemo_spec, cloneTree_spec; the driver's own "
                "run: runG_eq_run, closed_reachable_driver, fresh_stepG; "
                "resolved_member_label, same_taxon_iff_equal_labels, mapTaxa_shape; matrices: mapKeys_unify_spec, migrateMat_ok_closed, "
-               "migrateMat_refused_state (the known finding's state, precisely; mapKeys_unify_spec is the soundness direction only); unify_false_distinct_partial (one/two items, not lifted to "
+               "migrateMat_refused_state (the known finding's state, precisely; mapKeys_unify_spec is the soundness direction only); "
+               "mapKeys_accepted / migrateMat_accepted_keeps_sequences / migrateMat_keys_nodup (an accepted pass over a key list naming no "
+               "taxon twice keeps every sequence under a key of its own; Nodup of the key list is a hypothesis, not yet a history invariant); "
+               "readers: resolvedLast_member_label, same_taxon_iff_equal_labels_last, readLabels_spec, readTrees_spec, readInto_spec (labels of "
+               "a further source land on what the last-match table of the final namespace answers; earlier answers persist); chain of "
+               "migrations sharing a caller-supplied memo: covered by closed_step / fresh_step; unify_false_distinct_partial (one/two items, not lifted to "
                "whole runs); migrate_*_partial (single resolutions). Not proved: unify=False distinctness over whole runs, the readers' "
                "last-match lookup as a label spec, 'no sequence merged' for accepted matrix passes (needs key-list Nodup).")
 
@@ -404,6 +410,11 @@ def apply_op(w, op):
         t = dp.Tree(seed_node=nd) if op[1] is None else dp.Tree(seed_node=nd, taxon_namespace=w.nss[op[1]])
         w.reg_ns(t.taxon_namespace)
         w.reg_tree(t)
+    elif k == "chain":
+        memo = {}   # one caller-supplied taxon_mapping_memo shared by all the migrations of the chain
+        for kind, obj, n, unify in op[1]:
+            target = {"t": w.trees, "l": w.lists, "m": w.mats}[kind][obj]
+            target.migrate_taxon_namespace(w.nss[n], unify_taxa_by_label=bool(unify), taxon_mapping_memo=memo)
     elif k == "taadd":
         ta = dp.TreeArray(taxon_namespace=w.nss[op[1]])
         tree = w.trees[op[2]]
@@ -578,6 +589,8 @@ def enc_op(op):
         return [k, str(op[1]), str(op[2]), str(op[3])]
     if k == "taadd":
         return ["taadd", str(op[1]), str(op[2])]
+    if k == "chain":
+        return ["chain", ",".join("%s.%d.%d.%d" % (g[0], g[1], g[2], g[3]) for g in op[1]) if op[1] else "="]
     if k == "newtreeseed":
         return ["newtreeseed", str(op[1]), str(op[2])]
     if k == "treeseed":
@@ -973,7 +986,7 @@ def classify(w, op, status, problems, shared=False):
         return "dataset-add-foreign-when-attached"
     if k == "dsattach" and clauses == {"a-dataset"} and status == "ok":
         return "dataset-attach-over-foreign-components"
-    if k in ("mmig", "mrec", "dsunify") and status == "Conflict" and clauses == {"a-matrix"}:
+    if k in ("mmig", "mrec", "dsunify", "chain") and status == "Conflict" and clauses == {"a-matrix"}:
         return "matrix-merge-refusal-not-atomic"
     if k == "dsunify" and status == "Conflict" and clauses <= {"a-matrix", "a-dataset"}:
         # the same refusal inside unify_taxon_namespaces of a data set that is still attached to its previous namespace
@@ -997,7 +1010,9 @@ def expected_refusals(w, op):
             present = any(x is y for y in m._taxon_sequence_map.keys())
             return {"ValueError"} if foreign or (k == "mnew" and present) else set()
         if k in ("mmig", "mrec", "mclone"):
-            return {"Conflict"}       # TaxonNamespaceReconstructionError; whether it is legitimate is judged by Watch.check
+            return {"Conflict"}
+        if k == "chain":
+            return {"Conflict"} if any(g[0] == "m" for g in op[1]) else set()       # TaxonNamespaceReconstructionError; whether it is legitimate is judged by Watch.check
         if k == "dsunify":
             ds = w.dss[op[1]]
             if op[2] is None and not (len(ds.taxon_namespaces) or len(ds.tree_lists) or len(ds.char_matrices)):
@@ -1182,7 +1197,7 @@ def random_op(rng, w, allow_known=False):
     nN, nT, nL, nM, nD = len(w.nss), len(w.trees), len(w.lists), len(w.mats), len(w.dss)
     kinds = ["append", "append", "insert", "setitem", "setslice", "extend", "iadd", "add", "read", "newtree", "getslice", "pop",
              "remove", "lclone", "tclone", "mclone", "tmig", "trec", "lmig", "lrec", "mmig", "mrec", "mset", "mnew", "dsadd",
-             "dsnewlist", "dsnewmat", "dsnewns", "dsattach", "dsdetach", "dsunify", "dsread", "tree", "tlist", "ns", "mat", "taadd", "newtreeseed", "newtreeseed", "treeseed", "read", "tlget", "tget", "mget"]
+             "dsnewlist", "dsnewmat", "dsnewns", "dsattach", "dsdetach", "dsunify", "dsread", "tree", "tlist", "ns", "mat", "taadd", "newtreeseed", "newtreeseed", "treeseed", "read", "tlget", "tget", "mget", "chain", "chain"]
     k = rng.choice(kinds)
     pool = LABEL_POOL
 
@@ -1207,6 +1222,28 @@ def random_op(rng, w, allow_known=False):
         return ["newtreeseed", rng.randrange(nL), rng.randrange(nT), 1 if rng.random() < 0.3 else 0]
     if k == "treeseed" and nT:
         return ["treeseed", rng.randrange(nN) if nN and rng.random() < 0.75 else None, rng.randrange(nT), 1 if rng.random() < 0.3 else 0]
+    if k == "chain" and nN:
+        # 2-4 migrations of different objects (no tree of a chosen list is chosen itself) sharing one memo, mostly into different
+        # namespaces: a memoized taxon then has to be accessioned into the next target
+        cands = []
+        for i, t in enumerate(w.trees):
+            if not owners_of_tree(w, t):
+                cands.append(("t", i))
+        for i, l in enumerate(w.lists):
+            if all(all(o is l for o in owners_of_tree(w, t)) for t in l._trees) and len(set(map(id, l._trees))) == len(l._trees):
+                cands.append(("l", i))
+        for i, m in enumerate(w.mats):
+            cands.append(("m", i))
+        rng.shuffle(cands)
+        gs = []
+        for kind, i in cands[:rng.randint(2, 4)]:
+            obj = {"t": w.trees, "l": w.lists, "m": w.mats}[kind][i]
+            ns_ok = [n for n in range(nN) if (kind == "t" and tree_rebind_ok(w, obj, w.nss[n])) or
+                     (kind == "l" and list_rebind_ok(w, obj, w.nss[n])) or
+                     (kind == "m" and (obj.taxon_namespace is w.nss[n] or not attached_owner_conflict(w, obj, w.nss[n])))]
+            if ns_ok:
+                gs.append([kind, i, rng.choice(ns_ok), 0 if rng.random() < 0.15 else 1])
+        return ["chain", gs] if len(gs) >= 2 else None
     if k == "taadd" and nT and nN:
         t = rng.randrange(nT)
         # only foreign namespaces (the refusal): accepting a tree re-encodes it (unifurcations are suppressed), which is C06's matter
